@@ -1,5 +1,5 @@
 _SCHED = ["engine/sched.c", "engine/lin.c"]
-_TEMPLATES = ["aba-top", "aba-top3", "aba-free", "aba-free-lifo", "head-aba", "stale-next", "stale-next2", "push-push-empty",
+_TEMPLATES = ["aba-top", "aba-top3", "aba-free", "aba-free-lifo", "head-aba", "stale-next", "stale-next2", "stale-next3", "push-push-empty",
               "pop-push-one", "pop-push-one-lifo", "slot-exhaust", "slot-exhaust3", "slot-exhaust-lifo",
               "pool-recycle", "pool-full"]
 TARGET = dict(
@@ -9,7 +9,7 @@ TARGET = dict(
           "with capacity+1 elements and second drain; the complete invocation/response history is searched for a linearization (Wing-Gong with memo) "
           "against the bounded FIFO/LIFO/bag with the push-refusal rule; non-trivial = a context switch inside an operation and two overlapping "
           "operations; distinct by hash of program + schedule; plus complete enumeration of all schedules with <= K preemptions (K=3 quick, 4 thorough) "
-          "of 15 template programs aimed at the ABA, stale-next, racing-push, one-element and slot-exhaustion windows"),
+          "of 16 template programs aimed at the ABA, stale-next, racing-push, one-element and slot-exhaustion windows"),
     assumptions=["sequentially consistent interleavings at the granularity of the UPIPE_VERIF hooks (every uatomic operation, every plain access to a ring element); weak-memory reorderings of the plain accesses are outside",
                  "8/16-bit tag wrap-around (2^8 / 2^16 reuses of one slot inside one window) is out of reach of programs this small",
                  "linearizability checker engine/lin.c (sequential bounded FIFO/LIFO/bag; a refused push must be justified by stored elements + slots held by operations in progress >= capacity)",
@@ -18,11 +18,11 @@ TARGET = dict(
     execs=[dict(name="lin", harness="harness/C07_lin.c", repo=[], engine=_SCHED, san="none",
                 extra=dict(quick=[["enum", "--template", t, "--bound", "3"] for t in _TEMPLATES],
                            thorough=[["enum", "--template", t, "--bound", "4"] for t in _TEMPLATES]))],
-    quick=dict(cases=250000, budget=35), thorough=dict(cases=3000000, budget=420),
+    quick=dict(cases=250000, budget=35), thorough=dict(cases=2000000, budget=420),
 )
 META = dict(
     technique="systematic concurrency testing: deterministic coroutine scheduler over the real lock-free code (yield hooks at every atomic and ring-element access), random / PCT / exhaustively enumerated bounded-preemption schedules, Wing-Gong linearizability checking",
-    text="Generated client programs (2-3 threads x 1-4 operations, capacities 1-3) on ufifo, ulifo and upool run under a deterministic scheduler with schedules drawn from the tape (uniform, sparse, PCT, explicit prefix); every history incl. a sequential drain/refill epilogue is checked for linearizability against the bounded FIFO/LIFO/bag with the push-refusal rule, pool holders are tracked. For 15 template programs every schedule with <= 3 (quick) / <= 4 (thorough) preemptions is enumerated: these sub-spaces are covered completely, everything else is sampled.",
+    text="Generated client programs (2-3 threads x 1-4 operations, capacities 1-3) on ufifo, ulifo and upool run under a deterministic scheduler with schedules drawn from the tape (uniform, sparse, PCT, explicit prefix); every history incl. a sequential drain/refill epilogue is checked for linearizability against the bounded FIFO/LIFO/bag with the push-refusal rule, pool holders are tracked. For 16 template programs every schedule with <= 3 (quick) / <= 4 (thorough) preemptions is enumerated: these sub-spaces are covered completely, everything else is sampled.",
     design_ref="DESIGN.md section 6, C07; section 3.2 (enumerating driver); appendix A.5",
     note="SC interleavings at hook granularity only; tag wrap-around and weak-memory effects are out of reach; completeness is claimed only for the enumerated templates and bound (reported as exhaustive_subspaces in the evidence).",
 )
